@@ -21,19 +21,19 @@ CLAIMS["C05"] = dict(
     note="Trusted: TLC, the spelling table + classifier in harness/src/framing.rs (self-checked), the byte-counting BufRead used to attribute deliveries to lines. Text decoding/line splitting is C08/C10.")
 CLAIMS["C07"] = dict(
     category="model_checking", design_ref="DESIGN.md section 4, C07",
-    technique="TLA+ spec Framing with the decoder table Handles and invariant C07Projection checked by TLC; every TLC-generated file decoded by all nine real decoder types and compared field by field with Beatmap and with the fold over the decoder's handled deliveries; the Records / TimingLines case streams and a whole-map corpus (bundled, generated, hostile, line-shuffled) decoded by all nine decoders",
+    technique="TLA+ spec Framing with the decoder table Handles and invariant C07Projection checked by TLC; every TLC-generated file decoded by all nine real decoder types and compared field by field with Beatmap and with the fold over the decoder's handled deliveries; the Records / TimingLines case streams and a whole-map corpus (bundled, generated, hostile, line-shuffled) decoded by all nine decoders; SectionFlow.tla (sections in any order and repeated, exhaustive short and simulated long item sequences) decoded by Beatmap, HitObjects and TimingPoints",
     text="The model states that the driver is decoder-independent and that a specialised decoder applies exactly the deliveries of the sections it handles; TLC checks this on every file up to the bound and the harness checks on every such file (records of all sections, valid and invalid) that each of the eight specialised decoders returns Beatmap's values for all shared fields.",
     note="Trusted: TLC, the field lists in harness/src/framing.rs::c07_diffs (written from the public struct definitions). Deeper record contents are covered because the C06/C11/C12/C14 replays run the same comparison.")
 
 CLAIMS["C12"] = dict(
     category="model_checking", design_ref="DESIGN.md section 4, C12",
-    technique="TLA+ spec TimingLines (pending group + ControlPointOps) refined to the declarative legacy rule, checked by TLC on all line sequences up to a bound over factored alphabets; every TLC-generated sequence replayed through the real TimingPoints decoder; trace validation (Trace_TimingLines) of long random unsorted sequences with the flushed lists logged after every line; SectionOrder.tla ([General] records between timing lines) replayed; tlc -simulate long behaviours replayed; invariant Shape evaluated on real output with exotic times",
+    technique="TLA+ spec TimingLines (pending group + ControlPointOps) refined to the declarative legacy rule, checked by TLC on all line sequences up to a bound over factored alphabets; every TLC-generated sequence replayed through the real TimingPoints decoder; trace validation (Trace_TimingLines) of long random unsorted sequences with the flushed lists logged after every line; SectionOrder.tla ([General] records between timing lines) replayed; tlc -simulate long behaviours replayed; invariant Shape evaluated on real output with exotic times; a seed-generated randomised alphabet (RandTiming.tla); SectionFlow.tla (sections in any order / repeated) replayed for the control points",
     text="TLC shows that the operational decoder (pending time, push-front/push-back, flush, redundancy-aware add) computes exactly the declarative legacy rule (maximal runs of close times; last inherited else first timing-change per kind; add in order) for every sequence up to the bound, with sortedness and clamp invariants; the real decoder is compared with the model's predicted four lists on every enumerated sequence under two spellings, and long random sequences recorded from the real parser must be behaviours of the same operators.",
     note="Trusted: TLC, the spelling table harness/src/timing.rs, exactness rule (velocities on a 1/1000 lattice), times = whole ms plus 0+ (1e-17); -0 and NaN times are outside the alphabet.")
 
 CLAIMS["C14"] = dict(
     category="model_checking", design_ref="DESIGN.md section 4, C14",
-    technique="TLA+ specs HitObjectLine + PathString + Samples (abstract hit-object lines, path tokens, bank infos) with structural invariants checked by TLC; every TLC-generated line sequence replayed line by line into the real parse_hit_objects on its public state; trace validation of long random line sequences (Trace_HitObjectLine); tlc -simulate long behaviours replayed",
+    technique="TLA+ specs HitObjectLine + PathString + Samples (abstract hit-object lines, path tokens, bank infos) with structural invariants checked by TLC; every TLC-generated line sequence replayed line by line into the real parse_hit_objects on its public state; trace validation of long random line sequences (Trace_HitObjectLine); tlc -simulate long behaviours replayed; all two-line sequences over a seed-generated randomised alphabet (RandLines.tla: the model stays the oracle, values from wide ranges)",
     text="The legacy grammar is transcribed as operators over abstract lines (type/sound bits, coordinate truncation and limits, repeat/length/duration rules, node lists, bank infos, the path-token decoder with its implicit-segment rules); TLC enumerates every type byte, every sound byte, combo sequences, numeric and rejection classes, bank-info shapes and every path token string up to the bound, checks the structural invariants of the decoded objects, and the real parser is compared with the predicted object after every line under two spellings.",
     note="Trusted: TLC, the spelling table and projection in harness/src/hitobj.rs; values are integers (fraction class only for truncation); paths are spelled around four named points plus two far-away points exactly collinear with the object (products beyond 2^24).")
 CLAIMS["C06"] = dict(
@@ -54,12 +54,12 @@ CLAIMS["C16"] = dict(
     note="The MODEL is exact on straight segments only; for curved segments the natural polyline is taken from the code and the contract clauses (start at 0, finite, monotone within 1e-5, exact distance with its two exceptions, prefix-plus-end-point geometry, own polyline length, osu! Catmull simplification keeps the length within 1e-5 relative) are evaluated on it for random inputs - not exhaustive. Coordinates compared within 1e-3 + 1e-6|c|.")
 CLAIMS["C19"] = dict(
     category="model_checking", design_ref="DESIGN.md section 4, C19",
-    technique="TLA+ operator CurveLength!PosSeg (clamp, distance, segment index, interpolation weight) with clamping/end-point invariants checked by TLC on every lattice curve; replay through position_at, progress_to_dist, idx_of_dist, interpolate_vertices and the BorrowedCurve twins, plus vertex-fraction and arc-length relations on the real values",
+    technique="TLA+ operator CurveLength!PosSeg (clamp, distance, segment index, interpolation weight) with clamping/end-point invariants checked by TLC on every lattice curve; replay through position_at, progress_to_dist, idx_of_dist, interpolate_vertices and the BorrowedCurve twins, plus vertex-fraction and arc-length relations on the real values; the statement's relations and PosSeg's index rule evaluated on real many-point curves (seeded random control-point lists with every segment type)",
     text="For every curve of the C16 enumeration TLC computes, for 13 progress values including negatives and values above 1, the clamped distance and the segment and weight of the position and checks clamping and end-point facts; the real accessors are compared with them in four modes, and the real values are additionally checked for 'vertex at its cumulative length' and 'never moves farther than the arc length'.",
     note="Sub-domain of C16; NaN / subnormal progress and off-lattice curves are not covered.")
 CLAIMS["C18"] = dict(
     category="model_checking", design_ref="DESIGN.md section 4, C18",
-    technique="TLA+ spec CurveCache (shared buffers, SliderPath cache, eight operations) with invariants Pure and CacheCoherent checked by TLC on all operation sequences up to a bound; every sequence executed on the real API with each result compared bit-for-bit with a fresh computation; Neg configs for the two deviations",
+    technique="TLA+ spec CurveCache (shared buffers, SliderPath cache, eight operations) with invariants Pure and CacheCoherent checked by TLC on all operation sequences up to a bound; every sequence executed on the real API with each result compared bit-for-bit with a fresh computation; Neg configs for the two deviations; operation CloneFrom; the abstract pool replayed under three concretisations (every segment type, fallbacks, early returns)",
     text="TLC enumerates every sequence of owned / borrowed / cached computations and mutations over a pool of control-point lists (including empty and single-point) sharing one buffer set and one SliderPath and checks that each computing call returns the curve of its own input and that the cache always belongs to the current inputs; the real API is driven through every sequence and must equal a fresh computation at every step.",
     note="Trusted: TLC; F(input) is realised as Curve::new on fresh buffers. The pool has 6 lists x 3 length choices; bounds 3-6 operations.")
 
@@ -70,24 +70,24 @@ CLAIMS["C08"] = dict(
     note="Trusted: TLC, harness ScheduledReader (BufRead contract), Beatmap's PartialEq plus expected_dist comparison.")
 CLAIMS["C09"] = dict(
     category="fault_enumeration", design_ref="DESIGN.md section 4, C09",
-    technique="TLA+ spec Reader with a fault environment (failure at any offset x kind, Interrupted budget): invariant ErrorProvenance and liveness FaultSurfaces/Terminates checked by TLC; replay through a faulting BufRead; systematic fault injection at every read offset and every write offset of real files (FaultWriter: error kinds, zero-length writes, short writes, Interrupted, flush failure); Writer.tla (the Write object as environment of write_all/flush) with every script of per-call answers replayed into Beatmap::encode",
+    technique="TLA+ spec Reader with a fault environment (failure at any offset x kind, Interrupted budget): invariant ErrorProvenance and liveness FaultSurfaces/Terminates checked by TLC; replay through a faulting BufRead; systematic fault injection at every read offset and every write offset of real files (FaultWriter: error kinds, zero-length writes, short writes, Interrupted, flush failure); Writer.tla (the Write object as environment of write_all/flush) with every script of per-call answers replayed into Beatmap::encode; the model's fault kind concretised as ten different io::ErrorKinds",
     text="On the model TLC enumerates every fault offset and kind under every schedule and checks that decoding ends with exactly that error iff the fault is reached, that Interrupted never surfaces and that no error appears without a reader failure; the real code is replayed on those behaviours, and on bundled/random files a fault is injected at every byte offset (sampled for large files) x five kinds on read and at every output offset on write (hard error, zero-length write), with short writes and Interrupted writes required to be transparent and a flush failure required to be returned.",
     note="Fault enumeration is exhaustive on the model's short files and on small real files; large files use sampled offsets. The write side is bound by injection only (no TLA+ model of std's write_all).")
 CLAIMS["C10"] = dict(
     category="model_checking", design_ref="DESIGN.md section 4, C10",
-    technique="TLA+ spec Reader: the operational line reader refined to a declarative rule that splits UTF-16 on the code unit U+000A only, checked by TLC over payloads containing 0x0A-bearing units, surrogate halves and invalid UTF-8; replay comparing delivered text with std's lossy conversion of the model's raw lines; cross-encoding equality and lossy-reference relations on real texts; exhaustive Unicode scalar sweep in the thorough tier; units file set: payloads of whole UTF-16 code units whose 0x00 / 0x0A bytes meet inside and across unit boundaries",
+    technique="TLA+ spec Reader: the operational line reader refined to a declarative rule that splits UTF-16 on the code unit U+000A only, checked by TLC over payloads containing 0x0A-bearing units, surrogate halves and invalid UTF-8; replay comparing delivered text with std's lossy conversion of the model's raw lines; cross-encoding equality and lossy-reference relations on real texts; exhaustive Unicode scalar sweep in the thorough tier; units file set: payloads of whole UTF-16 code units whose 0x00 / 0x0A bytes meet inside and across unit boundaries; line sweep against std's lossy conversions (prefix lengths, invalid UTF-8 patterns, surrogate sequences, 64 KiB lines, unterminated last lines)",
     text="TLC checks that the byte-level reader and the text-level rule agree for every payload up to the bound in UTF-8, UTF-16LE and UTF-16BE (including an LE stream cut inside its final newline); the real reader must deliver, for each such file, exactly std's lossy text of the model's lines; bundled and random texts with hostile characters (U+4E0A, U+0A41, U+0A0A, U+FEFF, astral) must decode identically in all four encodings, invalid UTF-8 and unpaired surrogates must equal the per-line lossy reference, and the thorough tier sweeps every Unicode scalar value as metadata content in the three BOM encodings.",
     note="Trusted: TLC, std's lossy conversions as the reference. An odd trailing byte of a UTF-16 stream is dropped (not determined by the statement; the model follows the code).")
 
 CLAIMS["C11"] = dict(
     category="model_checking", design_ref="DESIGN.md section 4, C11",
-    technique="TLA+ spec Records: table-driven format rules (type per key, conversion per type, defaults, event and colour rules) with invariants LastWins, ARRule, Ranges and the action property RejectStutters checked by TLC on all record sequences up to a bound; every sequence replayed through the section's own decoder and Beatmap with field-by-field and per-line verdict comparison; trace validation of long random record sequences per section (Trace_Records)",
+    technique="TLA+ spec Records: table-driven format rules (type per key, conversion per type, defaults, event and colour rules) with invariants LastWins, ARRule, Ranges and the action property RejectStutters checked by TLC on all record sequences up to a bound; every sequence replayed through the section's own decoder and Beatmap with field-by-field and per-line verdict comparison; trace validation of long random record sequences per section (Trace_Records); seed-generated randomised alphabets for the key/value sections (RandRecords.tla)",
     text="The rules of the statement are written as TLA+ tables independent of the Rust call graph; TLC enumerates every sequence of up to 2-3 records over every recognised key x value class (valid, boundary, overflow, NaN/inf, empty, padded, comment-suffixed, extra colon, enum names) plus unknown keys, duplicates, all event kinds and colour shapes, and checks last-valid-wins, the AR-follows-OD rule, clamps, break ordering and that a rejected record is a stutter; the real decoders must produce exactly the predicted struct and verdicts.",
     note="Trusted: TLC, the spelling table and projections in harness/src/records.rs. Floats on a 1/100 lattice; 2^31 / 2^31-1 are not given to f32 fields (not representable).")
 
 CLAIMS["C02"] = dict(
     category="model_checking", design_ref="DESIGN.md section 4, C02 and section 7",
-    technique="TLA+ codec compositions PathCodec (path decoder o encoder o decoder), SampleCodec (hit samples) and TimingEncode (encode_timing_points composed with the TimingLines decoder) model-checked by TLC; the real encoder's path tokens and [TimingPoints] lines compared with the models' predictions and the second decode with the predicted result; whole bundled/generated maps round-tripped on the statement's field list",
+    technique="TLA+ codec compositions PathCodec (path decoder o encoder o decoder), SampleCodec (hit samples) and TimingEncode (encode_timing_points composed with the TimingLines decoder) model-checked by TLC; the real encoder's path tokens and [TimingPoints] lines compared with the models' predictions and the second decode with the predicted result; whole bundled/generated maps round-tripped on the statement's field list; SampleCodec bound by replay (hit-sound byte and bank info the encoder writes, re-decoded names and banks); HitObjectLine!LineCodec (whole-line encoder model) with the encoder's text compared field by field, also on the randomised alphabet",
     text="TLC checks that every decodable path token string, every bank-info x sound x sample-point combination and every chronological timing-line sequence in four modes survives decode -> encode -> decode (paths: outside five listed shapes the legacy text cannot carry); the real encoder must write exactly the predicted tokens/lines and the second decode must give the predicted result; bundled maps and maps from a structured generator (all sections, modes, versions, object kinds, multi-segment paths, same-time groups) are compared field by field per the statement, twice.",
     note="Number formatting (shortest round-trip Display) is assumed from the Rust standard library. Known findings (recorded, not repaired): four control-point shapes and sub-EPSILON times, see known_findings.json. Section writers other than paths/samples/timing are bound by the whole-map comparison only.")
 CLAIMS["C04"] = dict(
@@ -104,7 +104,7 @@ CLAIMS["C03"] = dict(
 
 CLAIMS["C15"] = dict(
     category="model_checking", design_ref="DESIGN.md section 4, C15",
-    technique="TLA+ spec MapPost (TimingLines decoder composed with stable sort, break sweep, slider velocity/duration and sample-point defaults at end+5 ms / node+5 ms) with invariants SortedStable, ComboAfterBreak, ClosedForms and ShiftInvariant checked by TLC over all small maps; replay through HitObjects and Beatmap (a sample also shifted); SectionFlow.tla (sections in any order and repeated) replayed for the objects; text-level shift relation on bundled and generated files; SortedStable evaluated on generated files with 25-95 objects, few distinct times (incl. signed zero), shuffled order",
+    technique="TLA+ spec MapPost (TimingLines decoder composed with stable sort, break sweep, slider velocity/duration and sample-point defaults at end+5 ms / node+5 ms) with invariants SortedStable, ComboAfterBreak, ClosedForms and ShiftInvariant checked by TLC over all small maps; replay through HitObjects and Beatmap (a sample also shifted); SectionFlow.tla (sections in any order and repeated) replayed for the objects; text-level shift relation on bundled and generated files; SortedStable evaluated on generated files with 25-95 objects, few distinct times (incl. signed zero), shuffled order; seed-generated sample values (RandPost.tla); a relation placing sample points around node + 5 ms at fractional node times",
     text="TLC enumerates every map of up to two objects (four kinds, equal and boundary start times, flags, sample shapes) x seven timing sections (velocity multipliers inside and beyond their clamp) x five break lists x multipliers x modes, and in a second `wide` profile every map of exactly three objects (incl. three-span sliders, hit-sound additions, file samples, custom indices 1/2/4) in all four modes, and checks that objects come out in stable time order, that the first object after a break starts a combo, the closed forms of velocity and duration, and that processing commutes with shifting all times by +-1, -7 and +-10^6 ms; the real decoders are compared with the predicted objects (combo flags, velocity, duration, and for every sample of the object and of each slider node: name, bank, bank-specified, volume, custom index, suffix, layering) on every case, and on real files with whole-millisecond times a text-level shift by seven different offsets must change nothing but the times.",
     note="Exactness rule: dyadic velocities and durations so that the `+5 ms` lookups are decided exactly; breaks in chronological file order; at most 3 objects per enumerated map.")
 
